@@ -8,8 +8,8 @@ INVS = ['OrderFree', 'CycleAgreement', 'DenoteClosed']
 SCENARIOS = ['A', 'B', 'C', 'D', 'E', 'R']
 
 
-def _cfg(scen, shard, nshards, mode):
-    return dict(spec='Spec', constants={'Shard': shard, 'NShards': nshards, 'EmitVectors': True,
+def _cfg(scen, shard, nshards, mode, wfonly=False):
+    return dict(spec='Spec', constants={'Shard': shard, 'NShards': nshards, 'EmitVectors': True, 'WFOnly': wfonly,
                                         'Scenario': '"%s"' % scen, 'OrderMode': '"%s"' % mode},
                 invariants=INVS, constraints=['Emit'])
 
@@ -51,18 +51,28 @@ def _run(prop, tier, replay, text, quick_frac):
         return _replay(prop, replay)
     rep = Report(prop, tier)
     rng = random.Random(seed())
+    wf = (prop == 'C02')
+    jobs = []
     for scen in SCENARIOS:
         if tier == 'thorough':
             nsh, shards, mode = 16, list(range(16)), 'all' if prop == 'C11' else 'two'
+        elif prop in ('C01', 'C02'):
+            # quick: EVERY instance of every scenario (C02: every well-formed one) in one layout
+            nsh, shards, mode = 3, list(range(3)), 'one'
         else:
-            # quick: a seeded subset of the instance shards of every scenario, three authoring orders each
+            # C11 quick: a seeded subset of the instance shards of every scenario, 18 layouts each
             nsh = 16 * quick_frac
             shards = sorted(rng.sample(range(nsh), 16 // len(SCENARIOS) + 1))
             mode = 'two'
-        res = run_shards('StoneSemMC', lambda s: _cfg(scen, s, nsh, mode), shards, 'semcheck.SemJudge',
-                         {'prop': prop}, tlc_kwargs={'timeout': 6000})
-        agg = merge(res)
-        rep.add_tlc('StoneSemMC/' + scen, agg, {'Scenario': scen, 'OrderMode': mode, 'shards': shards, 'of': nsh})
+        jobs += [(scen, s, nsh, mode) for s in shards]
+    res = run_shards('StoneSemMC', lambda j: _cfg(j[0], j[1], j[2], j[3], wf), jobs, 'semcheck.SemJudge',
+                     {'prop': prop}, tlc_kwargs={'timeout': 6000})
+    for scen in SCENARIOS:
+        sub = [r for r, j in zip(res, jobs) if j[0] == scen]
+        agg = merge(sub)
+        mine = [j for j in jobs if j[0] == scen]
+        rep.add_tlc('StoneSemMC/' + scen, agg, {'Scenario': scen, 'OrderMode': mine[0][3],
+                                                'shards': [j[1] for j in mine], 'of': mine[0][2]})
         rep.add_judged(agg)
     if prop == 'C11':
         # layout: comments, blank lines, trailing whitespace/comments, broken parenthesised lists.  StoneLex proves
@@ -77,7 +87,7 @@ def _run(prop, tier, replay, text, quick_frac):
         agg = merge(res)
         rep.add_tlc('StoneLex', agg, {'MaxLines': maxlines, 'alphabet': 33})
         rep.add_judged(agg)
-    rep.exhaustive = (tier == 'thorough')
+    rep.exhaustive = (tier == 'thorough' or prop in ('C01', 'C02'))
     rep.coverage_extra['rule'] = text
     rep.assumptions = ['TLC 1.8; harness/semcheck.py render_model / project_api; the rule catalogue of DESIGN Appendix A as '
                        'transcribed in specs/StoneSem.tla']
